@@ -25,7 +25,7 @@ TRUSTED_BASE = BASE_TRUSTED + [
 RULE = ('eleven closed-form stigmatic configurations (paraboloid at infinity, incl. after a fold mirror with Rc>0; spherical mirror at its centre of curvature; '
         'ellipsoid mirror focus-to-focus both ways; Cassegrain and Gregorian (hyperboloid/ellipsoid secondary); plano-hyperbolic singlet k=-n^2 both directions of travel; '
         'refracting ellipsoid; convex hyperboloid mirror from its far focus (virtual image, ray-level clauses); plano-hyperbolic + aplanatic meniscus, image in air or immersed), half of them reached through an edit history '
-        '(built with other conic/radius/thickness/index, incl. flat-first, then set_conic/set_radius/set_thickness/set_index); the axial field carries random vignetting factors (vx, vy independent, incl. 0 and unequal) in 40% of the instances; seeded radii 15..600 mm, n in [1.3,4], apertures from f/8 to f/0.6 '
+        '(built with other conic/radius/thickness/index, incl. flat-first, then set_conic/set_radius/set_thickness/set_index); mirror-only configurations also immersed in a medium n in [1.3,4] (object and image space included) or as a solid catadioptric block (plane entrance face, mirrors as back surfaces), the optical path being re-computed as sum(n x segment length) with the indices of the generated PRESCRIPTION; the stop as a separate plane in contact (thickness 0) with the vertex of a convex conic, pupil-centre ray included; the axial field carries random vignetting factors (vx, vy independent, incl. 0 and unequal) in 40% of the instances; seeded radii 15..600 mm, n in [1.3,4], apertures from f/8 to f/0.6 '
         '(NA to 0.9), 16-24 pupil points incl. the rim; FFTPSF sampled with every parity of num_rays, grid_size (odd grids 65..255) and of their difference; non-trivial = instance whose marginal ray is finite at the image')
 PARTIAL = [
     'conic_mirror_from_focus derives the vertex sheet from the distance kernel itself (sheet filter, dc4c87d); the plano-hyperbolic/aplanatic theorems and conic_mirror_stigmatic still take "the hit point lies on the vertex sheet of the conic" as a hypothesis (the exact hit distance '
@@ -237,6 +237,7 @@ def _instances(ctx, per_config, salt=0):
 def _witness(cfg, violations, n_sin_u=None):
     return {'config': cfg['name'], 'params': cfg['params'], 'spec': cfg['spec'],
             'edits_after_build': cfg.get('edits') or [], 'vignetting_vx_vy': cfg.get('vignetting'),
+            'medium_class': cfg.get('medium_class', 'air'), 'contact_stop': bool(cfg.get('contact_stop')),
             'image_in_glass': cfg.get('image_in_glass'), 'n_sin_u_image': n_sin_u,
             'violations': violations, 'violates_property': True}
 
@@ -305,6 +306,11 @@ def system_checks(ctx):
         if any(cfg.get('vignetting') or []):
             key = 'vignetted_axial_field(vx!=vy)' if cfg['vignetting'][0] != cfg['vignetting'][1] else 'vignetted_axial_field(vx==vy)'
             resA['histogram'][key] = resA['histogram'].get(key, 0) + 1
+        if cfg.get('medium_class', 'air') != 'air':
+            key = 'mirrors_' + cfg['medium_class'] + '_in_medium_n!=1'
+            resA['histogram'][key] = resA['histogram'].get(key, 0) + 1
+        if cfg.get('contact_stop'):
+            resA['histogram']['plane_stop_in_contact_with_conic_vertex'] = resA['histogram'].get('plane_stop_in_contact_with_conic_vertex', 0) + 1
         if cfg.get('edits'):
             resA['histogram']['reached_by_edit_history'] = resA['histogram'].get('reached_by_edit_history', 0) + 1
     try:
@@ -444,7 +450,8 @@ def system_checks(ctx):
     # ---------- (D) configurations with a virtual image: ray-level clauses on the implementation ----------
     import random as _random
     resD = {'name': 'virtual-image-ray-clauses', 'n': 0, 'nontrivial': 0, 'samples': [], 'disagreements': [],
-            'histogram': {'vignetted': 0, 'reached_by_edit_history': 0}}
+            'histogram': {'vignetted': 0, 'reached_by_edit_history': 0, 'immersed_in_medium_n!=1': 0,
+                          'plane_stop_in_contact_with_conic_vertex': 0}}
     rngD = _random.Random(ctx.seed * 977 + 6)
     # regression of the fixed finding conic-wrong-sheet: R = 11, k = -9/4, object at z = -22, NA 0.6 (the marginal
     # ray (0, 0.6, 0.8) must meet the vertex sheet after t = 55, not the second sheet after t = 5)
@@ -470,6 +477,8 @@ def system_checks(ctx):
             resD['n'] += nr
             resD['histogram']['vignetted'] += int(any(cfg.get('vignetting') or []))
             resD['histogram']['reached_by_edit_history'] += int(bool(cfg.get('edits')))
+            resD['histogram']['immersed_in_medium_n!=1'] += int(cfg.get('medium_class', 'air') != 'air')
+            resD['histogram']['plane_stop_in_contact_with_conic_vertex'] += int(bool(cfg.get('contact_stop')))
             if bad:
                 resD['disagreements'].append(_witness(cfg, bad))
             else:
